@@ -361,23 +361,17 @@ theorem sciPair_shown (B : Nat) (hB : 2 ≤ B) (m : Mode) (prec : Option Nat) (u
   | none => rfl
   | some p0 => exact (sciPair_value B hB m p0 useHex r).1
 
-/-- **the scientific text denotes the rounded value**: the core of every scientific format is
-    `d₀ [. d₁ … d_n] marker E` — one leading digit, then (behind a point, absent when there are none) the
-    remaining digits of the significand followed by zeros, exactly `p0` of them when a precision `p0` is
-    given —, all digits below the shown radix (`16` for the hexadecimal form of base 2, else `B`), and
-    read as a number it is the magnitude of the shown value:
-    `(d₀d₁…d_n)_radix · B^(E − n·k) = |sciShown|` (`k = 4` for hexadecimal digits, else `1`);
-    `sciShown` is the exact value without a precision and the mode's rounding to `p0 + 1` significant
-    digits with one (`sciRounded_spec`) -/
-theorem fmtSciCore_denotes (B : Nat) (hB : 2 ≤ B) (m : Mode) (prec : Option Nat) (upper useHex : Bool)
+/-- `fmtSciCore_denotes` with the exponent named: it is `sciExp`, the `exp_adjust` the code prints -/
+theorem fmtSciCore_denotes_exp (B : Nat) (hB : 2 ≤ B) (m : Mode) (prec : Option Nat) (upper useHex : Bool)
     (hhex : useHex = true → B = 2) (marker : Nat) (r : FRepr) :
-    ∃ (d0 : Nat) (fd : List Nat) (E : Int),
+    ∃ (d0 : Nat) (fd : List Nat),
       fmtSciCore B m prec upper useHex marker r =
         chars upper [d0] ++ fracChars upper (if fd = [] then none else some fd) ++ [marker] ++
-          printSpecInt 10 false E ∧
+          printSpecInt 10 false (sciExp B m prec upper useHex r) ∧
       d0 < sciRadix B useHex ∧ (∀ d ∈ fd, d < sciRadix B useHex) ∧
       (∀ p0, prec = some p0 → fd.length = p0) ∧
-      (ofDigits (sciRadix B useHex) (d0 :: fd) : ℚ) * bpowQ B (E - ((fd.length * sciK useHex : Nat) : Int)) =
+      (ofDigits (sciRadix B useHex) (d0 :: fd) : ℚ) *
+          bpowQ B (sciExp B m prec upper useHex r - ((fd.length * sciK useHex : Nat) : Int)) =
         |sciShown B m prec useHex r| := by
   have hB0 : 0 < B := by omega
   have hρ := sciRadix_ge B hB useHex
@@ -402,7 +396,7 @@ theorem fmtSciCore_denotes (B : Nat) (hB : 2 ≤ B) (m : Mode) (prec : Option Na
   | nil => exact absurd rfl hDne
   | cons d0 ds =>
     rw [sciBodyG_chars]
-    refine ⟨d0, ds ++ List.replicate (prec.getD 0 - ds.length) 0, _, rfl, hDlt d0 (by simp), ?_, ?_, ?_⟩
+    refine ⟨d0, ds ++ List.replicate (prec.getD 0 - ds.length) 0, rfl, hDlt d0 (by simp), ?_, ?_, ?_⟩
     · intro d hd
       rcases List.mem_append.mp hd with h | h
       · exact hDlt d (by simp [h])
@@ -413,8 +407,7 @@ theorem fmtSciCore_denotes (B : Nat) (hB : 2 ≤ B) (m : Mode) (prec : Option Na
       simp only [List.length_cons] at this
       simp only [Option.getD_some, List.length_append, List.length_replicate]
       omega
-    · -- the value
-      have hk : sciRadix B useHex = B ^ sciK useHex := sciRadix_eq_pow B useHex hhex
+    · have hk : sciRadix B useHex = B ^ sciK useHex := sciRadix_eq_pow B useHex hhex
       generalize prec.getD 0 - ds.length = t at *
       have e1 : d0 :: (ds ++ List.replicate t 0) = (d0 :: ds) ++ List.replicate t 0 := rfl
       rw [e1, ofDigits_append_replicate_zero, hDv, ← hshown, abs_mul, abs_of_pos (bpowQ_pos B hB0 _)]
@@ -426,6 +419,27 @@ theorem fmtSciCore_denotes (B : Nat) (hB : 2 ≤ B) (m : Mode) (prec : Option Na
       congr 2
       push_cast
       ring
+
+/-- **the scientific text denotes the rounded value**: the core of every scientific format is
+    `d₀ [. d₁ … d_n] marker E` — one leading digit, then (behind a point, absent when there are none) the
+    remaining digits of the significand followed by zeros, exactly `p0` of them when a precision `p0` is
+    given —, all digits below the shown radix (`16` for the hexadecimal form of base 2, else `B`), and
+    read as a number it is the magnitude of the shown value:
+    `(d₀d₁…d_n)_radix · B^(E − n·k) = |sciShown|` (`k = 4` for hexadecimal digits, else `1`);
+    `sciShown` is the exact value without a precision and the mode's rounding to `p0 + 1` significant
+    digits with one (`sciRounded_spec`) -/
+theorem fmtSciCore_denotes (B : Nat) (hB : 2 ≤ B) (m : Mode) (prec : Option Nat) (upper useHex : Bool)
+    (hhex : useHex = true → B = 2) (marker : Nat) (r : FRepr) :
+    ∃ (d0 : Nat) (fd : List Nat) (E : Int),
+      fmtSciCore B m prec upper useHex marker r =
+        chars upper [d0] ++ fracChars upper (if fd = [] then none else some fd) ++ [marker] ++
+          printSpecInt 10 false E ∧
+      d0 < sciRadix B useHex ∧ (∀ d ∈ fd, d < sciRadix B useHex) ∧
+      (∀ p0, prec = some p0 → fd.length = p0) ∧
+      (ofDigits (sciRadix B useHex) (d0 :: fd) : ℚ) * bpowQ B (E - ((fd.length * sciK useHex : Nat) : Int)) =
+        |sciShown B m prec useHex r| := by
+  obtain ⟨d0, fd, h⟩ := fmtSciCore_denotes_exp B hB m prec upper useHex hhex marker r
+  exact ⟨d0, fd, _, h⟩
 
 /-- the shown value keeps the sign of the number (`-` is printed iff the significand is negative) -/
 theorem sciShown_sign (B : Nat) (hB : 2 ≤ B) (m : Mode) (prec : Option Nat) (useHex : Bool) (r : FRepr) :
